@@ -19,6 +19,7 @@ def jobs(tier, seed):
             out.append({"kind": "sched", "scenario": sc, "write_fails": wfail, "gran": "line", "bound": 3 if q else 4})
             out.append({"kind": "sched", "scenario": sc, "write_fails": wfail, "gran": "opcode", "bound": 1 if q else 2})
     out.append({"kind": "pump-sched", "gran": "line", "bound": 3 if q else 4, "ncmd": 3})
+    out.append({"kind": "pump-sched", "gran": "line", "bound": 2 if q else 3, "ncmd": 3, "with_stop": True})
     out.append({"kind": "pump-sched", "gran": "opcode", "bound": 1 if q else 2, "ncmd": 2})
     for i in range(6 if q else 16):
         out.append({"kind": "producers", "seed": seed, "i": i, "producers": 2 + i % 5, "per": 1000 if q else 5000})
@@ -145,7 +146,9 @@ def run_pump_sched(job, res):
     from ..fakes import Patched
     from ..linesched import Explorer
 
-    codes = [mtask.SyncTasks._poll_queue.__code__, mtask.Tasks.run_job.__code__, mtask.SyncTasks.add_job.__code__]
+    codes = [mtask.SyncTasks._poll_queue.__code__, mtask.Tasks.run_job.__code__, mtask.SyncTasks.add_job.__code__,
+             mtask.SyncTasks.stop.__code__]
+    with_stop = job.get("with_stop", False)
     ex = Explorer(codes, "line" if job["gran"] == "line" else "instr")
     NCMD = job.get("ncmd", 3)
 
@@ -185,6 +188,8 @@ def run_pump_sched(job, res):
         def producer():
             for k in range(NCMD):
                 tasks.add_job(str, f"cmd-{k}\n")
+            if with_stop:
+                gw.stop()          # the user stops the gateway while the poll thread is somewhere in its loop
 
         def pump():
             with Patched((mtask, "time", ctx["time"])):
@@ -197,7 +202,7 @@ def run_pump_sched(job, res):
         for run, ctx, stuck, sched in ex.explore(make, job["bound"]):
             res.evals += 1
             res.count("pump_schedules")
-            case = {"kind": "pump-sched", "gran": job["gran"], "schedule": sched, "bound": job["bound"]}
+            case = {"kind": "pump-sched", "gran": job["gran"], "schedule": sched, "bound": job["bound"], "with_stop": with_stop}
             if stuck:
                 res.count("stuck_schedules")
                 continue
@@ -210,10 +215,20 @@ def run_pump_sched(job, res):
                 res.violation(f"add-job-raises:{core.exc_sig(exc)}", f"add_job raised {type(exc).__name__}: {exc} under schedule {sched}", case)
                 continue
             tasks, t = ctx["tasks"], ctx["t"]
+            want = [f"cmd-{k}\n" for k in range(NCMD)]
+            if with_stop:
+                # after stop() pending commands may be dropped, but what was written must be a duplicate-free
+                # subsequence of the queue order
+                it = iter(want)
+                if len(set(t.log)) != len(t.log) or not all(any(x == y for y in it) for x in t.log):
+                    res.violation("queued-command-reordered-or-duplicated:stop", f"producer queued {want!r} then stop(); written {t.log!r} under schedule {sched}", case)
+                if run.switches:
+                    n_inter += 1
+                    res.nontrivial(("pump-stop", job["gran"], sched["first"], tuple(i for i, c in enumerate(sched["choices"]) if c)))
+                continue
             # whatever is still queued when the simulated pump stopped is sent by a final fault-free round
             while tasks.queue:
                 t.send(tasks.run_job())
-            want = [f"cmd-{k}\n" for k in range(NCMD)]
             if t.log != want:
                 kind = "lost" if len(t.log) < NCMD else "duplicated" if len(t.log) > NCMD else "reordered"
                 res.violation(f"queued-command-{kind}", f"producer queued {want!r}; written {t.log!r} under schedule {sched}", case)
@@ -325,7 +340,7 @@ def run(job):
 def replay(case):
     res = Result()
     if case["kind"] == "pump-sched":
-        r = run({"kind": "pump-sched", "gran": case["gran"], "bound": case.get("bound", 2), "ncmd": 3})
+        r = run({"kind": "pump-sched", "gran": case["gran"], "bound": case.get("bound", 2), "ncmd": 3, "with_stop": case.get("with_stop", False)})
     elif case["kind"] == "sched":
         r = run({"kind": "sched", "scenario": case["scenario"], "write_fails": case["write_fails"], "gran": case["gran"], "bound": 2})
     else:
